@@ -127,9 +127,8 @@ def rule_reassembly(ck, fi, consts):
         out = []
         for n, c in hcalls:
             for env, u in X.frame_states(seen, n):
-                if len(c.args) < 2:
-                    raise AnalysisError("_handle_message call without (opcode, data)")
-                out.append((X.arg_view(c.args[0], env, u), X.arg_view(c.args[1], env, u), u))
+                a_, b_ = X.handle_args(c, env, u)
+                out.append((a_, b_, u))
         return out
 
     kind, ev = X.field_kind(ck.repo, W, P13, X.BUF)
@@ -241,7 +240,7 @@ def rule_mask_reader(ck, fi, consts):
             tags = set()
             for n, c in X.handle_calls(fi):
                 for env, u in X.frame_states(seen, n):
-                    b = X.arg_view(c.args[1], env, u)
+                    b = X.handle_args(c, env, u)[1]
                     if b == "assembled":
                         continue
                     tags.add(b)
@@ -386,6 +385,8 @@ def _write_transfer(payload: str, frame_var: str):
             l, r = tag_of(e.left, u), tag_of(e.right, u)
             if isinstance(l, tuple) and l[0] == "key" and isinstance(r, tuple) and r[0] == "masked" and r[1] == q.dotted(e.left):
                 return ("key+masked", l[1])
+            if l == "hdr" and r == "hdr":
+                return "hdr"
             return "mixed"
         if q.is_call(e, "struct.pack"):
             return "hdr"
@@ -542,6 +543,8 @@ def rule_write_message(ck, wm, consts):
 
     def utransfer(n, u, env):
         comp, tags = u
+        if any(isinstance(x, ast.Call) and isinstance(x.func, ast.Attribute) and x.func.attr == "compress" and (q.dotted(x.func.value) or "").startswith("self._compressor") for x in X.node_calls_all(n)):
+            comp = True  # the (possibly context-takeover) compressor has consumed the message
         if n.kind == "stmt" and isinstance(n.ast, (ast.Assign, ast.AnnAssign)) and n.ast.value is not None:
             v = n.ast.value
             t = None
@@ -568,6 +571,9 @@ def rule_write_message(ck, wm, consts):
                     fl_e = q.kwarg(c, "flags") or (c.args[3] if len(c.args) > 3 else None)
                     fl = X.fold_in(fl_e, env, "?") if fl_e is not None else 0
                     got.append((fin, op, body, fl))
+                    if u[0] and body != "deflated":
+                        ck.ob(R, wm, c, False, "once the compressor has consumed a message its output is what is sent (otherwise a context-takeover peer inflates against a window that is out of step)",
+                              construct="compressed output discarded: frame body %r after compress()" % (body,))
             want = (True, 2 if binary else 1, "deflated" if has_comp else "msg", consts.get("self.RSV1") if has_comp else 0)
             plain = (True, 2 if binary else 1, "msg", 0)
             ck.ob(R, wm, wm.node, bool(got) and want in got and all(g in (want, plain) for g in got),
@@ -626,25 +632,57 @@ def rule_deflate(ck, consts):
             a = q.arg(c, idx, kw)
             ok = isinstance(a, ast.UnaryOp) and isinstance(a.op, ast.USub) and q.dotted(a.operand) == "self._max_wbits"
             ck.ob(R, fi, c, ok, "%s uses raw deflate (negative window bits) with the negotiated self._max_wbits" % fn)
-    # context takeover: the persistent object is reused, otherwise a fresh one per message
-    for fi, attr, mk in ((comp, "self._compressor", "self._create_compressor"), (dec, "self._decompressor", "self._create_decompressor")):
-        ok = False
-        for n in q.walk_body(fi.node):
-            if isinstance(n, ast.Assign) and isinstance(n.value, ast.BoolOp) and isinstance(n.value.op, ast.Or) and len(n.value.values) == 2:
-                a, b = n.value.values
-                if q.dotted(a) == attr and q.is_call(b, mk):
-                    ok = True
-            if isinstance(n, ast.Assign) and isinstance(n.value, ast.IfExp):
-                v = n.value
-                if q.dotted(v.body) == attr and q.is_call(v.orelse, mk) and canon_fact(v.test, True) in ((attr, True), (attr + " is None", False)):
-                    ok = True
-        if not ok:
-            # positively bad only when the object used is unconditionally fresh or unconditionally the stored one
-            uncond = [n for n in q.walk_body(fi.node) if isinstance(n, ast.Assign) and (q.is_call(n.value, mk) or q.dotted(n.value) == attr)]
-            direct_use = any(isinstance(c_.func, ast.Attribute) and q.dotted(c_.func.value) == attr for c_ in q.calls(fi.node))
-            if not uncond and not direct_use:
-                raise AnalysisError("%s: how the zlib object is chosen (persistent %s vs %s()) is not in a recognised form" % (fi.qualname, attr, mk))
-        ck.ob(R, fi, fi.node, ok, "%s uses the persistent %s when context takeover is on, else a fresh object per message" % (fi.qualname, attr), construct="persistent-or-fresh %s: %s" % (attr, ok))
+    # context takeover: the persistent object is reused, otherwise a fresh one per message (decided per scenario on the CFG)
+    for fi, attr, mk, op in ((comp, "self._compressor", "self._create_compressor", "compress"), (dec, "self._decompressor", "self._create_decompressor", "decompress")):
+        sites = fi.cfg.find(lambda x, op=op: isinstance(x, ast.Call) and isinstance(x.func, ast.Attribute) and x.func.attr == op)
+        ck.floor(R, len(sites), 1, "zlib %s calls in %s" % (op, fi.qualname))
+
+        def origin(e, env, tags, attr=attr, mk=mk):
+            """'persist' | 'fresh' | None for the zlib object expression e"""
+            v = X.fold_in(e, env, None)
+            if v == "PERSISTENT-OBJECT":
+                return "persist"
+            if q.is_call(e, mk):
+                return "fresh"
+            if isinstance(e, ast.BoolOp) and isinstance(e.op, ast.Or):
+                for x in e.values:
+                    o = origin(x, env, tags)
+                    fv = X.fold_in(x, env, "?")
+                    if o is not None:
+                        return o
+                    if fv == "?" or fv:
+                        return None
+                return None
+            if isinstance(e, ast.IfExp):
+                t = X.fold_in(e.test, env, "?")
+                return None if t == "?" else origin(e.body if t else e.orelse, env, tags)
+            d = q.dotted(e) if isinstance(e, (ast.Name, ast.Attribute)) else None
+            return dict(tags).get(d) if d else None
+
+        def ut(n, u, env):
+            tags = dict(u)
+            if n.kind == "stmt" and isinstance(n.ast, (ast.Assign, ast.AnnAssign)) and n.ast.value is not None:
+                o = origin(n.ast.value, env, u)
+                for t in X._targets(n.ast):
+                    if o is None:
+                        tags.pop(t, None)
+                    else:
+                        tags[t] = o
+            return tuple(sorted(tags.items()))
+
+        for persistent in (True, False):
+            cs = dict(consts)
+            cs[attr] = "PERSISTENT-OBJECT" if persistent else None
+            seen = X.explore_consts(fi.cfg, cs, uinit=(), utransfer=ut)
+            got = set()
+            for node, c in sites:
+                for env, u in X.states_at(seen, node):
+                    got.add(origin(c.func.value, env, u))
+            if None in got or not got:
+                raise AnalysisError("%s: which zlib object performs %s() is not resolved (%s)" % (fi.qualname, op, sorted(map(repr, got))))
+            want = {"persist"} if persistent else {"fresh"}
+            ck.ob(R, fi, fi.node, got == want, "%s: with context takeover %s the %s object %s is used (got %s)" % (fi.qualname, "on" if persistent else "off", "persistent" if persistent else "fresh per-message", attr if persistent else mk + "()", sorted(got)),
+                  construct="zlib object persistent=%s -> %s" % (persistent, sorted(got)))
     for cls, attr, mk in (("_PerMessageDeflateCompressor", "self._compressor", "self._create_compressor"), ("_PerMessageDeflateDecompressor", "self._decompressor", "self._create_decompressor")):
         init = ck.func(W, cls + ".__init__")
         facts = must_facts(init.cfg)
@@ -865,6 +903,7 @@ MUTANTS = [
     ("negotiated window bits ignored", _in(P13 + "._get_compressor_options", replace_expr(lambda n: q.is_call(n, "int"), lambda n: parse_expr("zlib.MAX_WBITS"))), "C14.deflate-pairing"),
     ("compressed payload computed but the original is sent (with RSV1)", _in(P13 + ".write_message", replace_stmt(lambda st: isinstance(st, ast.Assign) and ".compress(" in _src(st), lambda st: [ast.Expr(value=st.value)])), "C14.deflate-pairing"),
     ("frame handed to the stream twice", _in(P13 + "._write_frame", replace_stmt(lambda st: isinstance(st, ast.Return), lambda st: [parse_stmt("self.stream.write(frame)"), st])), "C14.len-table"),
+    ("seeded C14-adv3: compressed output used only when smaller, else the raw message is sent (compressor already consumed it)", _in(P13 + ".write_message", lambda root: _compress_if_smaller(root)), "C14.deflate-pairing"),
     ("control-frame branch resets the reassembly buffer", _in(P13 + "._receive_frame", _ctl_branch_touches_buffer), "C14.ctl-no-msg-state"),
     ("continuation frames rewrite _frame_compressed (opcode != 0 dropped)", _in(P13 + "._receive_frame", replace_expr(lambda n: isinstance(n, ast.BoolOp) and "opcode != 0" in _src(n) and "_decompressor" in _src(n), lambda n: ast.BoolOp(op=n.op, values=[v for v in n.values if _src(v) != "opcode != 0"]))), "C14.ctl-no-msg-state"),
     ("undo the F11 repair (header side): control frames rewrite _frame_compressed", _in(P13 + "._receive_frame", replace_expr(lambda n: isinstance(n, ast.BoolOp) and "opcode != 0" in _src(n) and "_decompressor" in _src(n), lambda n: parse_expr("self._decompressor is not None and opcode != 0"))), "C14.ctl-no-msg-state"),
@@ -892,3 +931,11 @@ MUTANTS = [
     ("binary messages sent with the text opcode", _in(P13 + ".write_message", _const(2, 1)), "C14.deflate-pairing"),
     ("FIN bit constant wrong", lambda repo: mutate(repo, W, P13, replace_stmt(lambda st: isinstance(st, ast.Assign) and _src(st).startswith("RSV1 ="), lambda st: [parse_stmt("RSV1 = 0x20")])), "C14.header-bits"),
 ]
+
+
+def _compress_if_smaller(root):
+    for n in ast.walk(root):
+        if isinstance(n, ast.If) and _src(n.test) == "self._compressor":
+            n.body = ast.parse("compressed = self._compressor.compress(message)\nif len(compressed) <= len(message):\n    message = compressed\n    flags |= self.RSV1").body
+            return True
+    return False
